@@ -10,7 +10,7 @@
    byte-exact generator correspondence and judged on the reference machine. *)
 From Coq Require Import ZArith List String Bool.
 From Gigue Require Import Types Bits Isa Enc GenTables Builder BuilderTies Samplers Generator Machine MachineLemmas
-  SplitProofs FragProofs GenLemmas ImageSem CtorSpec C12Defs C12Proofs GenWF GenWFProps SliceLemmas FloatSign GenWF2 BodyExec BodyBridge GenWF5 FrameExec CodeMem SwitchExec GenWF6 GenWF8 GenWF9 Walk CallFrame MethodContract Witness.
+  SplitProofs FragProofs GenLemmas ImageSem CtorSpec C12Defs C12Proofs GenWF GenWFProps SliceLemmas FloatSign GenWF2 BodyExec BodyBridge GenWF5 FrameExec CodeMem SwitchExec GenWF6 GenWF4 GenWF7 GenWF8 GenWF9 Walk CallFrame MethodContract SaveRestore TrampExec TrampsInv TrampStubs WholeImage Loader Witness LoaderWitness.
 Import ListNotations.
 Open Scope Z_scope.
 
@@ -128,9 +128,111 @@ Theorem C01_every_method_returns_partial : forall c script img,
   successful c script img -> plain c ->
   forall L, placed c img L ->
   forall id m, nth_error (im_methods img) id = Some m ->
-  contract c img L (need_method c (im_methods img) (max_depth (im_methods img)) id) m.
+  contract c img L (need_method c (im_methods img) (max_depth (im_methods img)) id)
+           (steps_method (im_methods img) (max_depth (im_methods img)) id) m.
 Proof. exact every_method_returns. Qed.
 
+(* PROVED: PROPERTY C01 FOR THE TWO VARIANTS WITHOUT ISOLATION - without and with
+   the call / return trampolines (WholeImage.plain_image_returns), for every
+   accepted configuration, every decision script (hence every seed) and every
+   emitted image - no bound on the number of elements, sizes, depths:
+   with the interpreter loop, the trampolines, the PIC switch tables and the
+   methods loaded at their recorded addresses in a code region (< 2 GiB)
+   disjoint from the data section and the stack, PIC switch offsets within
+   +-1 MiB (finding F6 outside) and fewer than 2047 cases per PIC; entered at
+   the interpreter entry with ANY register contents such that the data register
+   holds the data base, sp is 8-aligned with
+      Ntot = 88 + (8 with trampolines) + max over methods of the call-DAG stack bound
+   bytes of stack below it:
+     - the reference machine, fetching and decoding the emitted bytes, RUNS TO
+       THE CALLER'S RETURN ADDRESS: `run` ends in `Next` at ra (low bit
+       cleared) - no fetch outside the code, no illegal instruction, no
+       misaligned / unmapped / code-writing access ever occurs (each is a Fault
+       outcome of the machine);
+     - it executes the interpreter prologue, then for EVERY top-level element, in
+       the shuffled order, its call stub, (with trampolines: the call trampoline,
+       which pushes the interpreter's return point and enters the element through
+       t1,) the element (a method with all its callees; or the PIC dispatch of the
+       loaded hit case followed by that case method), (the return trampoline,) and
+       the return to the next stub, then the epilogue;
+     - the number of machine steps is EXACTLY  image_steps c img eh = 12 + sum over
+       the elements e, with the hit case h the interpreter loaded for e (eh pairs
+       every element of the image with it: 1 <= h <= cases for a PIC), of
+       elem_cost e h + 13, where elem_cost is 2 + steps(method) for a method and
+       3 + (2(h-1)+3) + steps(case h) for a PIC, plus 10 with trampolines (two more
+       stub instructions, 5 + 3 trampoline instructions), steps = |method| + sum
+       over its callees (steps_method, = ImageSem.count_method);
+     - sp, s0-s9 and ra (restored from the frame), and every other register
+       outside the usable list except the PIC temporaries and (with trampolines)
+       t1 - `clob` -, hold their entry values; memory is unchanged outside the
+       data image and the stack window [sp - Ntot, sp); dom and the CFI stack are
+       unchanged.
+   The hypothesis on the data register: with trampolines the interpreter's stubs
+   load the call target into t1, so a configuration whose data register is t1
+   destroys its own data base (DESIGN 6.2: not an accepted configuration).
+   The other three variants: see the `_partial` theorems. *)
+Theorem C01_plain_image_returns : forall c script img,
+  successful c script img -> plain c ->
+  (uses_tramp (c_variant c) = true -> c_data_reg c <> 6) ->
+  forall L, placed c img L -> placed2 c img L ->
+  forall s0,
+    rget s0 2 mod 8 = 0 -> Ntot c img <= rget s0 2 < W64 ->
+    stk_lo L <= rget s0 2 - Ntot c img -> rget s0 2 <= stk_hi L ->
+    (forall r o, In (r, o) int_slots -> 0 <= rget s0 r < W64) ->
+    pc s0 = int_start_al c -> image_loaded c img s0 -> env_ok (gv c) L (c_data_reg c) s0 ->
+    exists s' eh, map fst eh = im_elements img /\ Forall (fun x => hit_ok (fst x) (snd x)) eh /\
+      run (gv c) L (image_steps c img eh) s0 = (Next s', image_steps c img eh) /\
+      pc s' = (u64 (rget s0 1 + 0) / 2) * 2 /\
+      (forall r, 0 <= r -> wr c r = false -> ~ clob c r -> rget s' r = rget s0 r) /\
+      mem_frame c L s0 s' (rget s0 2 - Ntot c img) (rget s0 2) /\ dom s' = dom s0 /\ cfi s' = cfi s0.
+Proof. exact plain_image_returns. Qed.
+
+(* PROVED: PROPERTY C01 STATED OVER THE EMITTED FILES, same two variants
+   (Loader.plain_image_from_files): the hypotheses `placed`, `placed2` and
+   `image_loaded` of the previous theorem are DERIVED from the entry conditions
+   `Init` of ImageSem: the words of int.bin followed by the words of jit.bin in
+   code memory from the interpreter's generation address on (the loader lemma
+   uses Layer A: exact tiling, element address = file position, interpreter
+   padding, data file size, the recorded trampolines), pc at the first word, sp
+   at the top of a stack of Ntot bytes, ra = the halt address outside the image,
+   the data register at the data section, dom 0, empty CFI stack; every other
+   register, the data contents and all other memory arbitrary.  Remaining side
+   conditions: image smaller than 2 GiB - 2 KiB, PIC switch offsets encodable
+   (F6) and PICs of fewer than 2047 cases, callee-saved register VALUES within 64
+   bits (a well-formed state).  Conclusion: the machine halts at the halt
+   address after exactly image_steps steps with dom = 0 and the CFI stack empty;
+   no fault. *)
+Theorem C01_plain_image_from_files : forall c script img,
+  successful c script img -> plain c ->
+  (uses_tramp (c_variant c) = true -> c_data_reg c <> 6) ->
+  forall L s0, Init c img (Ntot c img) L s0 -> code_lo L = int_start_al c ->
+    code_hi L - code_lo L < 2147483648 - 2048 -> pics_encodable img ->
+    (forall r o, In (r, o) int_slots -> 0 <= rget s0 r < W64) ->
+    exists s' eh, map fst eh = im_elements img /\ Forall (fun x => hit_ok (fst x) (snd x)) eh /\
+      run (gv c) L (image_steps c img eh) s0 = (Next s', image_steps c img eh) /\ pc s' = halt_at L /\
+      (forall r, 0 <= r -> wr c r = false -> ~ clob c r -> rget s' r = rget s0 r) /\
+      mem_frame c L s0 s' (stk_hi L - Ntot c img) (stk_hi L) /\ dom s' = 0 /\ cfi s' = [].
+Proof. exact plain_image_from_files. Qed.
+
+(* non-vacuity, per variant: a concrete state (the witness image stored word by word
+   into an empty memory) meets every hypothesis; the images have PICs and call-making methods *)
+Theorem C01_plain_image_from_files_nonvacuous :
+  ((exists s' n, run (gv wcfg_base) wL n ws0 = (Next s', n) /\ pc s' = halt_at wL /\ dom s' = 0 /\ cfi s' = []) /\
+   Init wcfg_base wimg (Ntot wcfg_base wimg) wL ws0 /\
+   existsb (fun e => match e with EPic _ => true | _ => false end) (im_elements wimg) = true /\
+   existsb (fun m => negb (m_is_leaf m)) (im_methods wimg) = true) /\
+  ((exists s' n, run (gv wcfg_tramp) wL_t n ws0_t = (Next s', n) /\ pc s' = halt_at wL_t /\ dom s' = 0 /\ cfi s' = []) /\
+   Init wcfg_tramp wimg_t (Ntot wcfg_tramp wimg_t) wL_t ws0_t /\
+   existsb (fun e => match e with EPic _ => true | _ => false end) (im_elements wimg_t) = true /\
+   existsb (fun m => negb (m_is_leaf m)) (im_methods wimg_t) = true).
+Proof.
+  split; (split; [first [exact base_image_from_files_nonvacuous|exact tramp_image_from_files_nonvacuous]|]);
+  (split; [first [exact ws0_init|exact ws0_init_t]|first [exact wimg_shape|exact wimg_shape_t]]).
+Qed.
+
+Print Assumptions C01_plain_image_returns.
+Print Assumptions C01_plain_image_from_files.
+Print Assumptions C01_plain_image_from_files_nonvacuous.
 Print Assumptions C01_every_method_returns_partial.
 Print Assumptions C01_leaf_methods_run_partial.
 Print Assumptions C01_fragments_tied_partial.
